@@ -19,6 +19,8 @@
 import LiteFSVerif.Proofs.Protocol
 import LiteFSVerif.Proofs.ApplyBytes
 import LiteFSVerif.Proofs.Replicate
+import LiteFSVerif.Gen.Skel
+import LiteFSVerif.Model.ExpectedSkel
 
 namespace LiteFSVerif.C01
 open LiteFSVerif LiteFSVerif.Cks LiteFSVerif.Cluster LiteFSVerif.Protocol
@@ -158,5 +160,13 @@ theorem C01_wal_commit_replicates_bytes (p p' : Engine.Eng) (hcommit : Engine.co
               | some off => BA.getD wal (off + 24 + (i - (q - 1) * p.pageSize))
               | none => BA.getD (Engine.dbBytes r) i) :=
   Engine.wal_commit_replicates p p' hcommit hne hps
+
+/-- the control skeletons (branch conditions, loop heads, returns, order of calls and of state
+    assignments) of `DB.ApplyLTXNoLock`, regenerated from the current source on every run, are the ones the
+    model was written and validated against (Model/ExpectedSkel.lean): a reordered, dropped or
+    altered check or call in these functions breaks this theorem -/
+theorem C01_source_skeletons :
+    Gen.Skel.DB_ApplyLTXNoLock = Expected.Skel.DB_ApplyLTXNoLock :=
+  rfl
 
 end LiteFSVerif.C01
